@@ -30,7 +30,7 @@ struct Walker<'a> {
 
 impl<'a> Walker<'a> {
     fn take(&mut self, path: &str, len: usize, kind: Kind) -> Option<&'a [u8]> {
-        if self.pos + len > self.b.len() {
+        if self.pos.checked_add(len).map(|e| e > self.b.len()).unwrap_or(true) {
             return None;
         }
         let s = &self.b[self.pos..self.pos + len];
@@ -199,6 +199,23 @@ pub fn apply(bytes: &[u8], fields: &[Field], m: &Mutation) -> (Vec<u8>, String) 
                 6 => cur.wrapping_mul(2) & max,
                 _ => rnd & max,
             };
+            if f.path == "gkr.len" {
+                // variable-length size encoding: rewrite as the 9-byte form carrying a 64-bit value
+                let big = match mode % 8 {
+                    0 => 0u64,
+                    1 => 1,
+                    2 => u64::MAX - 1,
+                    3 => u64::MAX,
+                    4 => (f.len as u64) << 33,
+                    5 => 1 << 40,
+                    6 => 1 << 62,
+                    _ => *rnd,
+                };
+                let mut enc = vec![0u8];
+                enc.extend(big.to_le_bytes());
+                out.splice(f.off..f.off + f.len, enc);
+                return (out, "field-value@gkr.len(9-byte)".into());
+            }
             write_le(&mut out[f.off..f.off + width], v);
             (out, format!("field-value@{}", f.path))
         },
